@@ -104,7 +104,16 @@ pub fn guard_dead_actor(out: &mut Partial, what: &str, replay: Value, f: impl Fn
                 // the world of the aborted scenario was dropped while unwinding
                 out.violation(format!("actor-died/{what}"), format!("{what}: the actor thread of node {} {}", d.node, d.why), replay);
             }
-            Err(other) => std::panic::resume_unwind(other),
+            Err(other) => match other.downcast::<crate::sim::Runaway>() {
+                Ok(r) => {
+                    out.violation(
+                        format!("runaway-node/{what}"),
+                        format!("{what}: the scenario was abandoned after {} loop iterations in {} virtual seconds (node {} alone is far beyond what any scenario needs): a node never goes quiet", r.steps, r.virtual_secs, r.busiest_node),
+                        replay,
+                    );
+                }
+                Err(other) => std::panic::resume_unwind(other),
+            },
         }
     }
 }
